@@ -209,18 +209,31 @@ def features_of(P, g, call=None):
                     c = cond_class(h, {'k': 'i', 'id': i.id}) if i.op == 'icmp' else None
                     if c and c[0] == 'nonascii': skip = True
     counter = None
-    def from_arg2(v, d=0):
-        v = strip_int(g, v)
-        if v == {'k': 'a', 'n': 2}: return True
-        i_ = inst_of(g, v)
+    def from_param(h, n, v, d=0):
+        v = strip_int(h, v)
+        if v == {'k': 'a', 'n': n}: return True
+        i_ = inst_of(h, v)
         if i_ is None or d > 5: return False
-        if i_.op == 'phi': return any(from_arg2(x, d + 1) for x, _ in i_.d['incoming'] if vk(x) != ('i', i_.id))
-        if i_.op in ('add', 'sub'): return any(from_arg2(x, d + 1) for x in i_.ops)
+        if i_.op == 'phi': return any(from_param(h, n, x, d + 1) for x, _ in i_.d['incoming'] if vk(x) != ('i', i_.id))
+        if i_.op in ('add', 'sub'): return any(from_param(h, n, x, d + 1) for x in i_.ops)
         return False
     if len(g.params) >= 3 and g.params[2]['bits'] in (32, 64) and not g.params[2]['ty'].endswith('*'):
-        for i in g.all_insts():
-            if i.op == 'icmp' and any(from_arg2(v) for v in i.ops):
-                counter = i
+        # the length parameter, and the parameters of helpers it is handed on to
+        lenp = {(g.name, 2)}; closure = {h.name: h for h in _reach_defs(P, g)}; grow = True
+        while grow:
+            grow = False
+            for h in closure.values():
+                for ci, ct in P.calls(h):
+                    if ct[0] != 'direct' or ct[1] not in closure: continue
+                    for k_, a_ in enumerate(ci.ops):
+                        if any(hn == h.name and from_param(h, pn, a_) for hn, pn in list(lenp)) and (ct[1], k_) not in lenp:
+                            lenp.add((ct[1], k_)); grow = True
+        for hn, pn in lenp:
+            h = closure.get(hn) or (g if hn == g.name else None)
+            if h is None: continue
+            for i in h.all_insts():
+                if i.op == 'icmp' and any(from_param(h, pn, v) for v in i.ops):
+                    counter = i
     nconst = const_of(call.ops[2]) if (call is not None and len(call.ops) > 2) else None
     prefix = counter is not None and (nconst is None or nconst != 0)
     return {'skip': skip, 'prefix': prefix, 'n': nconst}
@@ -311,7 +324,9 @@ def dispatch_map(ctx, cfg, P):
                 st.mem.new('lang', 8, 0)
                 def hook(I_, st_, ptr, nbytes, inst, as_ptr, flags=flags):
                     c0 = ptr.parts[0] if ptr.parts else ptr.coff()
-                    fb = P.flag_load(LANG_STRUCT, c0, nbytes, {n__: int(v__) for n__, v__ in flags.items()}) if c0 is not None else None
+                    vals_ = {n__: int(v__) for n__, v__ in flags.items()}
+                    for other_ in ('is_sorted', 'compose'): vals_[other_] = I_.V.bit('lang.' + other_)      # (flags the dispatch must not depend on: unconstrained symbols)
+                    fb = P.flag_load(LANG_STRUCT, c0, nbytes, vals_) if c0 is not None else None
                     if fb is not None: return BV(fb)
                     raise Unmodelled('get_comparer reads the language table at offset %s' % c0)
                 st.mem.hooks = {'lang': hook}
@@ -455,6 +470,11 @@ def writer_functions(P):
             src = [n for n, a in enumerate(i.ops[:len(g.params)]) if g.params[n]['ty'] == 'i8*' and a['k'] in ('i', 'a') and (pts.of(f, a) & strs)]
             cur = [n for n, a in enumerate(i.ops[:len(g.params)]) if g.params[n]['ty'] == 'i8**']
             if len(src) == 1 and len(cur) == 1: out[g.name] = (g, cur[0], src[0])
+            elif len(src) == 1 and not cur:
+                # index form: (buffer, current length, source) -> new length
+                bufs = [n for n, a in enumerate(i.ops[:len(g.params)]) if n != src[0] and g.params[n]['ty'] == 'i8*']
+                lens = [n for n, a in enumerate(i.ops[:len(g.params)]) if not g.params[n]['ty'].endswith('*') and g.params[n].get('bits') in (32, 64)]
+                if len(bufs) == 1 and len(lens) == 1 and g.d.get('ret_bits') in (32, 64): out[g.name] = (g, ('idx', bufs[0], lens[0]), src[0])
     P._writers = list(out.values())
     return P._writers
 
@@ -929,9 +949,23 @@ def nfkd_before_split(ctx, rep):
                 n += 1
                 nk = [(i, lazies[t[1]]) for i, t in calls if t[0] == 'direct' and t[1] in lazies and f.inst_dominates(i, s_)]
                 ok = False
+                def parked(v):
+                    # a pointer re-loaded from a member of a context struct the function only reads: (root of the struct address, offset), else None
+                    from .ir import strip_casts as sc_
+                    r_, o_ = sc_(f, v)
+                    if o_ != 0 or r_['k'] != 'i' or f.insts[r_['id']].op != 'load': return None
+                    ra, oa = sc_(f, f.insts[r_['id']].ops[0])
+                    if oa is None or ra['k'] != 'a': return None
+                    if any(i_.op == 'store' and sc_(f, i_.ops[1])[0] == ra for i_ in f.all_insts()): return None
+                    for i_, t_ in calls:
+                        for kk_, a_ in enumerate(i_.ops):
+                            if a_['k'] in ('i', 'a') and sc_(f, a_)[0] == ra and not (t_[0] == 'direct' and t_[1] in P.defined and not P.writes_through(t_[1], kk_)): return None
+                    return (ra['n'], oa)
                 for k, lr in nk:
                     a, _ = addr_base(f, k.ops[lr.args['out']]); b, _ = addr_base(f, s_.ops[tr.args['buf']])
                     if a == b and a is not None and a[0] == 'i' and f.insts[a[1]].op == 'alloca': ok = True
+                    pa, pb = parked(k.ops[lr.args['out']]), parked(s_.ops[tr.args['buf']])
+                    if pa is not None and pa == pb: ok = True       # (the same member of a read-only context struct: the same pointer)
                 rep.check(ok, 'tokeniser call at %s works on the buffer a dominating lazy-normaliser call filled' % s_.loc, s_.loc, '%s tokenises un-normalised input' % base_name(f.name),
                           sample={'function': f.name, 'split': s_.loc}, key='CMP-2|%s' % base_name(f.name))
                 buf = addr_base(f, s_.ops[tr.args['buf']])[0]
@@ -945,6 +979,14 @@ def nfkd_before_split(ctx, rep):
                 W = addr_base(f, s_.ops[tr.args['words']])[0]
                 users = [i for i, t in calls if i is not s_ and f.inst_dominates(s_, i) and any(a_['k'] in ('i', 'a') and addr_base(f, a_)[0] == W for a_ in i.ops)
                          and not (t[0] == 'dep' and t[1] == 'memzero')]
+                if not users:
+                    # the array belongs to a caller (context struct / caller-provided array): some other call site in the program receives its base address
+                    pt_ = P.points_to(); Wo = pt_.of(f, s_.ops[tr.args['words']])
+                    for g_ in P.defined.values():
+                        if g_ is f: continue
+                        for i_, t_ in P.calls(g_):
+                            if t_[0] != 'direct' or t_[1] not in P.defined or t_[1] in toks or t_[1] == f.name: continue
+                            if any(a_['k'] in ('i', 'a') and pt_.is_base(g_, a_) and (pt_.of(g_, a_) & Wo) and all(o_[0] == 'alloca' for o_ in pt_.of(g_, a_)) for a_ in i_.ops): users.append(i_)
                 rep.check(bool(users), 'the token array the tokeniser filled is handed to the phrase search', s_.loc, '%s: tokens are not searched' % base_name(f.name), key='CMP-2|%s|tokens' % base_name(f.name))
         rep.instances(n, 1, 'tokeniser call sites')
     tokeniser_semantics(ctx, rep)
